@@ -241,3 +241,62 @@ PROPS["C06"] = {
     "technique": "symbolic execution with z3 over (n, s) boxes with s unbounded; forward-step totals of the "
                  "real stream and the planner's Bellman equation checked against an independent recurrence",
 }
+
+
+def c13_jobs(tier):
+    q = tier == "quick"
+    jobs = sweep_jobs(tier, classes=("TwoLevel",))
+    jobs.append(_job("twolevel_fwd", "K=%d" % (6 if q else 10), {"K": 6 if q else 10}))
+    for j in nadv_jobs(tier):
+        jobs.append(j)
+    return jobs
+
+
+PROPS["C13"] = {
+    "fatal": ["C13.", "C05.nadv"], "jobs": c13_jobs,
+    "bounds": lambda tier: {"forward phase": {"period": "unbounded symbolic integer >= 1",
+                                              "binomial_snapshots": "unbounded symbolic integer >= 0",
+                                              "actions": 6 if tier == "quick" else 10},
+                            "blocks": sweep_bounds(tier)["TwoLevel"],
+                            "n_advance lemma": "as C05"},
+    "outside": ["n beyond the bound for the block check", "optimality of the binomial count over all schedules (GW2000)"],
+    "trusted": ["Griewank & Walther (2000)", "z3"], "stubs": STUBS, "assumptions": [],
+    "technique": "symbolic execution with z3: forward phase decided for every period (arguments affine in the "
+                 "period); per-block forward-step counts of the real stream against the binomial closed form; "
+                 "n_advance kernel lemma with symbolic n",
+}
+
+
+def c14_jobs(tier):
+    q = tier == "quick"
+    return [_job("split", "n=%d" % n, {"n": n}, w=n * n) for n in range(1, (10 if q else 20) + 1)]
+
+
+PROPS["C14"] = {
+    "fatal": ["C14."], "jobs": c14_jobs,
+    "bounds": lambda tier: {"n": [1, 10 if tier == "quick" else 20], "s": "1..n+1 total units, every split (a, s-a)",
+                            "trajectory": "both"},
+    "outside": ["n beyond the bound"], "trusted": ["z3"], "stubs": STUBS, "assumptions": [],
+    "technique": "symbolic execution with z3 (solver-enumerated (s, trajectory), all splits inside one path); "
+                 "per-depth access weights counted from the real stream, minimum disk traffic recomputed independently",
+}
+
+
+def c16_jobs(tier):
+    q = tier == "quick"
+    jobs = [_job("numba_table", "n=%d" % n, {"n": n}, w=n ** 3) for n in range(1, (12 if q else 26) + 1)]
+    jobs += [_job("numba_stream", "n=%d" % n, {"n": n}, w=n ** 3) for n in range(1, (12 if q else 26) + 1)]
+    return jobs
+
+
+PROPS["C16"] = {
+    "fatal": ["C16."], "jobs": c16_jobs,
+    "bounds": lambda tier: {"n": [1, 12 if tier == "quick" else 26], "s": "table: min(1,n-1)..n+1; streams: unbounded symbolic",
+                            "storage": "RAM, DISK"},
+    "outside": ["numba-compiled semantics (int64 wrap-around, typed tuples): njit is the identity wrapper here",
+                "n beyond the bound"],
+    "trusted": ["z3"], "assumptions": [],
+    "stubs": STUBS + ["checkpoint_schedules.mixed.numba rebound to a truthy sentinel to force the tabulated branch"],
+    "technique": "symbolic execution with z3 (bounded-exhaustive box, proxies concretised at the numpy boundary): "
+                 "table entries vs memoised planner, and streams of both code paths compared action by action",
+}
